@@ -76,3 +76,9 @@ func (m *MemFile) Close() error {
 func (m *MemFile) Reopen() *MemFile {
 	return &MemFile{Data: m.Data}
 }
+
+// ReopenAtEnd is Reopen with the cursor at the end of the data (a handle that was read or appended to
+// before it is handed over, like the repository's misc.NewBuffer over existing bytes).
+func (m *MemFile) ReopenAtEnd() *MemFile {
+	return &MemFile{Data: m.Data, off: int64(len(m.Data))}
+}
